@@ -251,7 +251,7 @@ def rule_anchor_consumed(ctx, fx, config):
         nv += len(labels)
         ctx.check(bool(labels) and all(any(f.dominates(p, w) for p in pre) for w in labels), "ANCHOR", "C14:ANCHOR:variant-node-takes-the-anchor:serialize_%s" % nm, "a staged anchor is emitted for the variant node before its label is written",
                   "serialize_%s writes the variant's label without consuming a staged anchor first: `&aN` lands on the first scalar of the payload and an alias to the shared enum value reads back as that scalar" % nm, config, ctx.where(f))
-    ctx.floor("ANCHOR.variant-labels", nv, 9, config)
+    ctx.floor("ANCHOR.variant-labels", nv, 6, config)
     # the absent branch of a weak anchor writes `null` like any value: after the space owed to a preceding `key:`
     tf = fx.fn("<ser::TupleSer as serde::ser::SerializeTupleStruct>::serialize_field")
     nulls = [b for b, t in tf.calls() if last_seg(fx.callee_decl(t)) == "write_str" and len(t["args"]) > 1 and tf.sym_operand(t["args"][1])[:2] == ("const", "null")]
